@@ -19,7 +19,7 @@ import (
 func init() {
 	Props["C15"] = &harness.Prop{
 		ID:             "C15",
-		Rule:           "histories: alphabet of 18 inputs (1005, 1006, MSM4 and MSM7 of GPS, Galileo, GLONASS and BeiDou with cells, four MSM messages whose cell masks have the same value and length but the shapes 2x3, 3x2, 1x6 and 6x1, 1230, an unknown type, non-RTCM text, a CRC-broken frame); every sequence of length <=3 (quick) / <=4 (thorough) through ONE handler at both log levels; each element is decoded (Analyse) and displayed twice; oracle: decoded structure deep-equal and text (without the MSM time lines) equal to those of a fresh handler, second display identical, raw bytes unchanged, and every message decoded earlier in the history and still held is displayed again and deep-compared after each later frame (nothing may be shared between messages); value copies of a delivered message: what consumer A does with its copy (String, Analyse, field assignments) leaves consumer B's copy deep-equal to a pristine one. concurrency: two (thorough: also three) threads decoding and displaying frames on separate handlers and on value copies of one message, with scheduling points at every function and loop entry of rtcm/handler, rtcm/utils, rtcm/header and the six MSM and two station packages; every schedule with <=1 (quick) / <=2 (thorough) preemptions; oracle: every result equals the sequential baseline. Non-trivial = histories of length >=2 / distinct schedule traces",
+		Rule:           "histories: alphabet of 21 inputs (incl. three MSM frames that carry a time error from the handler and are also too short to decode) (1005, 1006, MSM4 and MSM7 of GPS, Galileo, GLONASS and BeiDou with cells, four MSM messages whose cell masks have the same value and length but the shapes 2x3, 3x2, 1x6 and 6x1, 1230, an unknown type, non-RTCM text, a CRC-broken frame); every sequence of length <=3 (quick) / <=4 (thorough) through ONE handler at both log levels; each element is decoded (Analyse) and displayed twice; oracle: decoded structure deep-equal and text (without the MSM time lines) equal to those of a fresh handler, second display identical, raw bytes unchanged, and every message decoded earlier in the history and still held is displayed again and deep-compared after each later frame (nothing may be shared between messages); value copies of a delivered message: what consumer A does with its copy (String, Analyse, field assignments) leaves consumer B's copy deep-equal to a pristine one. concurrency: two (thorough: also three) threads decoding and displaying frames on separate handlers and on value copies of one message, with scheduling points at every function and loop entry of rtcm/handler, rtcm/utils, rtcm/header and the six MSM and two station packages; every schedule with <=1 (quick) / <=2 (thorough) preemptions; oracle: every result equals the sequential baseline. Non-trivial = histories of length >=2 / distinct schedule traces",
 		Assumptions:    []string{"interleavings inside unsynchronised code are explored at function/loop-entry granularity; 'no data race' at the memory-model level is outside a cooperative scheduler and only touched by the auxiliary -race pass", "the two MSM time lines ('Time ...', 'Start of ... week ...') are removed before comparing texts, as the statement excludes them"},
 		Pre:            c15Histories,
 		Scenarios:      c15Scenarios,
@@ -64,6 +64,15 @@ func c15Alphabet() []c15Input {
 	shape("1077-3x2", 1077, 3, 2)
 	shape("1074-1x6", 1074, 1, 6)
 	shape("1074-6x1", 1074, 6, 1)
+	// frames that carry an error from the handler AND fail to decode
+	add("1077-short-illegal-ts", ref.TypedFrame(1077, 9, func(i int) byte { return 0xFF }))
+	add("1117-short", ref.TypedFrame(1117, 9, nil))
+	add("1087-short-day7", ref.TypedFrame(1087, 9, func(i int) byte {
+		if i == 3 {
+			return 0xE0
+		}
+		return 0
+	}))
 	add("1230", ref.TypedFrame(1230, 8, func(i int) byte { return byte(i * 3) }))
 	add("unknown-4001", ref.TypedFrame(4001, 5, func(i int) byte { return byte(i) }))
 	add("non-rtcm", []byte("$GPGGA,1*47\r\n"))
@@ -111,8 +120,9 @@ func decodeDisplay(h *handler.Handler, in []byte) (res c15Result, fault string) 
 	handler.Analyse(m)
 	t1 := m.String()
 	t2 := m.String()
-	if t1 != t2 {
-		return res, "second display differs from the first"
+	t3 := m.String()
+	if t1 != t2 || t2 != t3 {
+		return res, "repeated display differs from the first"
 	}
 	if !bytes.Equal(m.RawData, orig[:len(m.RawData)]) || !bytes.Equal(buf, orig) {
 		return res, "raw bytes modified by decoding or display"
